@@ -59,9 +59,54 @@ NT_DICT_CORPUS = [(_HND, _hnd(["map", "dict", [[["s", k], v] for k, v in kv]]), 
 )] + [(_HND, _hnd(["coll", "list", [["i", "1"], ["i", "2"]]]), "mixin", "corpus")]
 
 
+def generic_templates():
+    """handwritten shapes the wire language cannot spell: generic NamedTuple / TypedDict / dataclass whose type
+    parameter sits INSIDE a member annotation.  name -> (annotation, input, expected value)"""
+    import datetime
+    import sys
+    import types
+    import typing
+
+    # (defined in a module of their own, without `from __future__ import annotations`)
+    m = types.ModuleType("c03_generic_templates")
+    sys.modules[m.__name__] = m
+    exec(compile(
+        "import typing\n"
+        "T = typing.TypeVar('T')\n"
+        "class GN(typing.NamedTuple, typing.Generic[T]):\n    x: T\n    xs: typing.List[T]\n"
+        "class GT(typing.TypedDict, typing.Generic[T]):\n    x: T\n    xs: typing.Dict[str, typing.List[T]]\n",
+        "<c03 templates>", "exec", dont_inherit=True), m.__dict__)   # (exec of a string would inherit this module's __future__ flags)
+    GN, GT = m.GN, m.GT
+    d = datetime.date(2020, 1, 2)
+    return {
+        "generic NamedTuple, List[T] member, T=date": (GN[datetime.date], ["2020-01-02", ["2020-01-02"]], GN(d, [d])),
+        "generic NamedTuple, List[T] member, T=List[int]": (GN[typing.List[int]], [["1"], [["2", 3]]], GN([1], [[2, 3]])),
+        "generic TypedDict, Dict[str, List[T]] member, T=date": (GT[datetime.date], {"x": "2020-01-02", "xs": {"k": ["2020-01-02"]}}, {"x": d, "xs": {"k": [d]}}),
+        "List of generic NamedTuple": (typing.List[GN[int]], [["1", ["2"]]], [GN(1, [2])]),
+    }
+
+
+def run_generic_templates(ctx, only=None):
+    from mashumaro.codecs.basic import BasicDecoder
+
+    for name, (ann, data, want) in generic_templates().items():
+        if only is not None and name != only:
+            continue
+        case = {"template": name}
+        ctx.count(case, True, kind="template")
+        try:
+            got = BasicDecoder(ann).decode(data)
+        except Exception as e:  # noqa
+            ctx.violation(case, {"error": f"{type(e).__name__}: {e}"[:300]}, "decode returns", "decode failed where the reference reading is defined", lambda f: False)
+            continue
+        if got != want or repr(got) != repr(want):
+            ctx.violation(case, {"decoded": repr(got)[:300]}, {"reference": repr(want)[:300]}, "an element below a bound type parameter is not converted to the parameter's type", lambda f: False)
+
+
 def run(ctx):
     ctx.rule = RULE
     ctx.lean_check("Mashu.Props.C03", THEOREMS, extra_targets=["Mashu.Dispatch"])
+    run_generic_templates(ctx)
     for mode, cs in decode.fixed_corpus(ctx).items():
         decode.run_decode(ctx, cs, judge, annot=mode)
     decode.run_decode(ctx, NT_DICT_CORPUS, judge)
@@ -83,5 +128,8 @@ def run(ctx):
 
 def replay(ctx, body):
     c = body["case"]
+    if "template" in c:
+        run_generic_templates(ctx, only=c["template"])
+        return ctx.finish()
     decode.run_decode(ctx, [(c["ty"], c["input"], c.get("entry", "codec"), "replay")], judge, annot=c.get("annot", False))
     return ctx.finish()
